@@ -214,13 +214,23 @@ def fetchSameOp (j : Json) : Except String Res := do
     | .ok (Json.arr a) => a.toList.map fun v => (v.getNat?).toOption.getD 0
     | _ => []
   let timeoutS := ((j.getObjVal? "timeout_s").toOption.bind (·.getNat?.toOption)).getD 0
-  let agree := match results with
+  -- askers of one kind get one answer; with document fetches and webfinger lookups mixed, a fetch
+  -- is refused (the JRD's media type is not one a document fetch tolerates) and a lookup answers
+  let kindOf (r : Json) : String := ((r.getObjVal? "kind").toOption.bind (·.getStr?.toOption)).getD "fetch"
+  let sameKind (k : String) : Bool := match results.filter (kindOf · == k) with
     | [] => true
     | r :: rest => rest.all (· == r)
+  let expectLookup := (j.getObjVal? "expect_lookup").toOption
+  let ownOk := match expectLookup with
+    | none => true
+    | some link => results.all fun r =>
+        if kindOf r == "lookup" then (r.getObjVal? "ok").toOption == some link
+        else (r.getObjVal? "err").toOption == some (Json.bool true)
+  let agree := sameKind "fetch" && sameKind "lookup"
   -- exactly one connection of the chain is slow or silent (the generator made it so): one dial
   -- timeout plus one deadline, whatever the number of askers
   let timely := timeoutS == 0 || ms.all fun t => t ≤ 2 * timeoutS * 1000 + 1500
-  pure { model := impl, preds := [("same_answer_for_all_askers", agree), ("returns_within_time_bound", timely)],
+  pure { model := impl, preds := [("same_answer_for_all_askers", agree), ("each_asker_gets_its_own_kind_of_answer", ownOk), ("returns_within_time_bound", timely)],
          nontrivial := results.length ≥ 2 }
 
 /-- op "par": functions of their input run alone and then all at once; predicate-only: the answers
